@@ -23,7 +23,7 @@ MANIFEST_TEXT = ("Lean 4 theorems (all index lists incl. repeated indices, all p
                  "assignment incl. self-assignment, destruction, use, on any of the user's communicators) the buffer size, the "
                  "interface map and the process group of every object are those of value semantics, no MPI call ever gets a "
                  "dead communicator, every object owns a live private duplicate and none is leaked, so the delivery theorem "
-                 "holds for the object's own maxBufferSize. Tie to the source (round four): tools/translators/tr_c06.py regenerates lean/DuneVerif/Gen/C06.lean from variablesizecommunicator.hh on every run - the bodies of MessageBuffer (hasSpaceForItems, reset, both constructors), InterfaceTracker (finished, empty, indicesLeft, offset, skipZeroIndices, moveToNextIndex, increment), PackEntries, UnpackEntries, UnpackSizeEntries, SetupSendRequest, SetupRecvRequest, SizeDataHandle, InterfaceInformationChooser, forward/backward, setupInterfaceTrackers as Lean definitions (conditions, bounds, statement order, call arguments), the body checkAndContinue runs for one completed request (buffer functor with the MPI_Get_count value, skipZeroIndices, continuation through the communication functor, --no_completed), plus the tags and counts of the MPI calls, the size of every MessageBuffer vector by role, the default buffer sizes, the checkAndContinue wrappers and the consistency of the three progress loops (guard, initialisation and vectors of every counter) as data; the theorems src_tracker_buffer, src_pack_unpack, src_setup_requests, src_directions_trackers, src_check_and_continue, src_progress_loops, src_constants prove for all inputs that the generated definitions are the model functions the theorems above are about (and that the small-step machine Pair and the function-level recvLoop do exactly what the generated checkAndContinue body does), so these are re-proved against what the source says now. " "The model is run against the real class under mpirun -np 1..4 "
+                 "holds for the object's own maxBufferSize. Tie to the source (round four): tools/translators/tr_c06.py regenerates lean/DuneVerif/Gen/C06.lean from variablesizecommunicator.hh on every run - the bodies of MessageBuffer (hasSpaceForItems, reset, both constructors), InterfaceTracker (finished, empty, indicesLeft, offset, skipZeroIndices, moveToNextIndex, increment), PackEntries, UnpackEntries, UnpackSizeEntries, SetupSendRequest, SetupRecvRequest, SizeDataHandle, InterfaceInformationChooser, forward/backward, setupInterfaceTrackers as Lean definitions (conditions, bounds, statement order, call arguments), the body checkAndContinue runs for one completed request (buffer functor with the MPI_Get_count value, skipZeroIndices, continuation through the communication functor, --no_completed), plus the tags and counts of the MPI calls, the size of every MessageBuffer vector by role, the default buffer sizes, the checkAndContinue wrappers and the consistency of the three progress loops (guard, initialisation and vectors of every counter) as data; the theorems src_tracker_buffer, src_pack_unpack, src_setup_requests, src_directions_trackers, src_check_and_continue, src_progress_loops, src_constants prove for all inputs that the generated definitions are the model functions the theorems above are about (round five: generated loop conditions/bodies are local lambdas that a congruence lemma replaces by canonical ones whenever they agree on every reachable loop state, so hoisted locals, respelled loops, guard clauses and helper functions do not break the tie) (and that the small-step machine Pair and the function-level recvLoop do exactly what the generated checkAndContinue body does), so these are re-proved against what the source says now. " "The model is run against the real class under mpirun -np 1..4 "
                  "(thorough: ..8) on random symmetric interface maps with a recording data handle, 23 item types (every "
                  "specialisation of mpitraits.hh: all primitive types directly or as FieldVector components, std::pair with "
                  "interior/tail padding and nested, FieldVector, bigunsignedint<k> with and without a partially filled top "
@@ -33,7 +33,13 @@ MANIFEST_TEXT = ("Lean 4 theorems (all index lists incl. repeated indices, all p
                  "fixed- and variable-size handles, PMPI-permuted MPI_Testsome completion orders, a per-case alarm that turns "
                  "a hang into a reported crash, an independent delivery oracle and a send/receive balance oracle (PMPI "
                  "counts of the started point-to-point operations).")
-MANIFEST_NOTE = ("Trusted: Lean kernel; tools/translators/tr_c06.py (C++ subset -> Lean) and Model/C06Src.lean (how index_, "
+MANIFEST_NOTE = ("Trusted: Lean kernel; tools/translators/tr_c06.py (C++ subset -> Lean; tolerant to renamed and hoisted "
+                 "unmodified locals, guard clause vs. if/else, if/return vs. conditional expression, commuted comparisons, "
+                 "size()==0 vs. empty(), iterator vs. index vs. range-for loops over the same sequence, count-down loops with an "
+                 "unused counter, for vs. while, early return vs. trailing if, helper member functions, std::count_if / "
+                 "std::copy_n vs. the hand loop, reference aliases of trackers[i]/buffers[i]/the index lists, this->, integral "
+                 "casts: the loops are compared semantically, Lean lemma loopG_congr, not as syntax trees; anything else "
+                 "fails loudly) and Model/C06Src.lean (how index_, "
                  "interface_.size(), sizes_.size(), position_ are read off the model's zipper representation); the fidelity of "
                  "the parts that stay hand-written - MPI_Testsome/the loop over completed requests around the translated body, "
                  "setupRequests, the rank-level systems VarSys/FixSys (their counters are tied to the source by the consistency "
@@ -70,7 +76,7 @@ RULE = ("cases: rank 0 draws a symmetric interface map over P processes (self in
         "1-4 forward/backward calls on these objects, with handles of the case's mode or of the other mode; "
         "distinct = distinct op lines; non-trivial = at least one rank has a non-empty interface list")
 ASSUMPTIONS = [
-    "lean/DuneVerif/Gen/C06.lean is regenerated from variablesizecommunicator.hh by tools/translators/tr_c06.py and proved equal to the model functions (src_* theorems); the translator's reading of the C++ subset (integer expressions over size_t without wrap-around: index_ <= interface_.size() and position_+n within size_t, short-circuit && / ||, statement order, the one loop shape `while(c) [if(d)] body [else break]` / counted for) and Model/C06Src.lean's reading of the tracker's zipper representation are trusted",
+    "lean/DuneVerif/Gen/C06.lean is regenerated from variablesizecommunicator.hh by tools/translators/tr_c06.py and proved equal to the model functions (src_* theorems); the translator's reading of the C++ subset is trusted: integer expressions over size_t without wrap-around (index_ <= interface_.size(), position_+n within size_t; functional/static casts between integral types are the identity), short-circuit && / ||, statement order, `if` arms continued with the statements that follow (guard clause = if/else), loops `while(c) [if(d)] body [else break]`, counted for loops (ascending or descending by one, counter unused in the body, bound a literal / unmodified local / parameter) and any other `for(init;c;step) body` as `init; while(c){body;step;}`, integral locals that are never modified afterwards (no assignment, ++/--, address taken) as the value of their initialiser at the point of declaration, member functions of the same functor called with plain names as inlined bodies; in checkAndContinue and setupInterfaceTrackers references and unmodified copies that name the current request index / list position / trackers[i] / buffers[i] / requests2[i] / statuses[k] / the two index lists are replaced by what they stand for. Model/C06Src.lean's reading of the tracker's zipper representation is trusted. Spellings outside this grammar (reference locals in the pack/unpack functors, range-for over the completed list, do-while, continue, std::for_each, removed dead code) are reported as a broken obligation even when behaviour is unchanged",
     "the parts of the Lean models that stay hand-written (the iteration over completed requests, setupRequests, sendAll, the rank-level systems VarSys/FixSys with their counters, constructors/operator=: Model/C06.lean, C06Fix.lean, C06Life.lean) rest on the differential run (scatter calls per source rank, in order, with counts and items; effective buffer size, map and process group of every object a call is made on)",
     "MPI is trusted: reliable, pairwise FIFO per (source, tag, communicator); MPI_Issend completes once the matching receive has started; MPI_Testsome eventually reports a completed request; MPI_Comm_dup gives an independent communicator with the same group",
     "all processes run the same object history (same buffer sizes, symmetric interface maps whose k-th send and k-th receive entries match - the documented precondition) and call forward/backward collectively with handles that agree on fixedSize()",
